@@ -213,6 +213,11 @@ func (g *Gen) verifyFunc(fc *FuncContract) (*VC, error) {
 		if len(fr.rets) > 1 {
 			suffix = fmt.Sprintf("@ret%d", ri+1)
 		}
+		if len(fc.Ensures) > 0 {
+			// vacuity guard: this return must not be provably unreachable (an unreachable return proves any postcondition)
+			vc.addObl(&Obligation{Name: "cover:reach" + suffix, Kind: "cover", PC: rp.pc, Goal: "false", WantSat: true,
+				Src: "the return at " + strings.TrimPrefix(rp.pos, "/repo/") + " is not provably unreachable under the precondition, invariants and assumed contracts"})
+		}
 		for _, e := range fc.Ensures {
 			t, err := penv.boolExpr(e.E)
 			if err != nil {
